@@ -309,12 +309,132 @@ def run(facts, tier, ctx):
     out.append(rb)
 
     # --------------------------------------------------------------- ERRDISC
+    PASS = [r"Arc::<T", r"Mutex::<T>::new", r"Mutex::<T>::lock", r"Result::<T, E>::expect", r"Result::<T, E>::unwrap",
+            r"::deref$", r"::deref_mut$", r"Deref::deref", r"DerefMut::deref_mut", r"Clone::clone"]
+
+    def identity_guard_exemption(body, bi, t):
+        """`callee(.., x)` whose resolved body errs only when x != self.F, called with x = accessor(self) that
+        returns self.F of the same object, F never reassigned: the error cannot happen (dataflow identity)."""
+        fn = t.get("fn")
+        if not fn:
+            return None
+        cid = fn.get("res") or fn["def"]
+        if fn.get("res_kind") in ("unresolved", "virtual") or cid not in facts.bodies:
+            return None
+        C = facts.bodies[cid]
+        from .lib_range import decode_cond
+        # every Result-typed call inside C must itself be infallible (no foreign errors flow out)
+        from .lib_errdisc import never_errs as _ne
+        from .tyutil import result_parts as _rp
+        for cb_, ct in C.calls():
+            if _rp(ct.get("dty")) is not None and _ne(facts, ct) is None:
+                return None
+        err_blocks = set()
+        for b2, s2, st in C.iter_stmts():
+            if st["k"] == "assign" and st["rv"]["k"] == "agg" and st["rv"].get("adt") == "std::result::Result" \
+                    and st["rv"].get("variant") == "Err":
+                err_blocks.add(b2)
+        if not err_blocks:
+            return None
+        guards = []
+        for sb in sorted(C.live):
+            st = C.term(sb)
+            if st["k"] != "switch":
+                continue
+            c = decode_cond(C, st["d"])
+            if not c or c["kind"] != "cmp2" or c["op"] not in ("Eq", "Ne"):
+                continue
+            pk = fld = None
+            for (ors, nm) in ((c["a_origins"], c["a"]), (c["b_origins"], c["b"])):
+                if len(ors) == 1 and ors[0][0] == "param" and ors[0][1] >= 2 and ors[0][2] == "":
+                    pk = ors[0][1]
+                if len(ors) == 1 and ors[0][0] == "param" and ors[0][1] == 1 and re.search(r"\.[A-Za-z_]\w*$", ors[0][2]):
+                    fld = nm
+            if pk is None or fld is None:
+                continue
+            # mismatch edge
+            mis_val = 0 if c["op"] == "Eq" else 1
+            mt = None
+            for val, tb in st["vals"]:
+                if val == mis_val:
+                    mt = tb
+            if mt is None:
+                mt = st["else"]
+            if len(C.pred[mt]) == 1:
+                guards.append((pk, fld, mt))
+        if not guards:
+            return None
+        reach = C.reachable(0, removed=set(g[2] for g in guards))
+        if any(e in reach for e in err_blocks):
+            return None
+        (pk, fld, _mt) = guards[0]
+        # call-site operand for parameter pk and the receiver
+        arg = t["args"][pk - 1]
+        recv = t["args"][0]
+        # resolve through the enclosing closure's captures to the function that created it
+        def lift(b, op):
+            ors = b.origins(op, through_calls=PASS)
+            outp = []
+            for o in ors:
+                if o[0] == "param" and o[1] == 1 and b.kind == "Closure":
+                    m = re.match(r"^\*?\.(\d+)", o[2])
+                    parent = facts.bodies.get(b.raw.get("parent"))
+                    if m and parent is not None:
+                        for pb_, ps_, pst in parent.iter_stmts():
+                            if pst["k"] == "assign" and pst["rv"]["k"] == "agg" and pst["rv"].get("closure") == b.id:
+                                outp += [(parent, x) for x in parent.origins(pst["rv"]["ops"][int(m.group(1))],
+                                                                               through_calls=PASS)]
+                        continue
+                outp.append((b, o))
+            return outp
+        a_l = lift(body, arg)
+        r_l = lift(body, recv)
+        if len(a_l) != 1 or not r_l:
+            return None
+        (ab, ao) = a_l[0]
+        if ao[0] != "call":
+            return None
+        acc = ao[2]
+        aid = (acc.get("fn") or {}).get("def")
+        if aid not in facts.bodies:
+            return None
+        A = facts.bodies[aid]
+        # accessor returns self.<fld>
+        ret_ok = False
+        for o in A.place_origins({"l": 0, "p": []}):
+            if o[0] == "param" and o[1] == 1 and o[2].endswith("." + fld):
+                ret_ok = True
+        if not ret_ok:
+            return None
+        # accessor receiver and fill receiver are the same object of the creating function
+        acc_recv = idset(ab.origins(acc["args"][0], through_calls=PASS))
+        fill_recv = set()
+        for (rb, ro) in r_l:
+            if rb.id != ab.id:
+                return None
+            fill_recv |= idset([ro])
+        if not acc_recv or acc_recv != fill_recv:
+            return None
+        # the field is never reassigned
+        adt = (C.raw.get("impl_self") or "")
+        for b3 in facts.body_list:
+            for bb3, si3, st3 in b3.iter_stmts():
+                if st3["k"] == "assign" and st3["dst"]["p"] and st3["dst"]["p"][-1] == "." + fld:
+                    base_ty = b3.local_ty(st3["dst"]["l"])
+                    if adt and adt in base_ty:
+                        return None
+        return ("resolved callee %s errs only when its argument differs from self.%s; the argument is %s(self) of "
+                "the same object and the field is never reassigned" % (C.id, fld, aid))
+
+    def idset(ors):
+        return set((o[0], o[1], o[2]) if o[0] in ("param", "local") else (o[0], o[1]) for o in ors)
+
     mods = set(b.module.split("::")[0] for b in [entry] + R.feeders)
     ed = run_errdisc(facts, "ERRDISC/par", "no Result<_, SourceError|EncodeError> in the par module is unwrapped, "
                      "expected, swallowed or handed to a diverging closure",
                      lambda e, b: e.strip() in ("error::SourceError", "error::EncodeError"),
                      body_filter=lambda b: b.module.split("::")[0] in mods or b.id.startswith("<" + entry.module),
-                     finding_prefix="ERRDISC/par", exempt_infallible_callee=True)
+                     finding_prefix="ERRDISC/par", exempt_infallible_callee=True, exempt=identity_guard_exemption)
     ed.require_floor(6, "SourceError/EncodeError producing call sites in the par module")
     out.append(ed)
     return out
